@@ -182,6 +182,8 @@ func parseValidate(v string) (c constraint, known bool) {
 			c.required = true
 		case "omitempty":
 			c.omitempty = true
+		case "sim_probe":
+			// the simulator's own custom validator: always true, only a yield point
 		case "min", "gte":
 			f, err := strconv.ParseFloat(arg, 64)
 			if err != nil {
@@ -293,6 +295,9 @@ func violating(validate, prim string) (WireVal, bool) {
 type bodyGen struct {
 	p *projgen.Project
 	r *projgen.Rand
+	// violate: the first top-level field that carries a validator gets a value violating it
+	violate  bool
+	violated string
 }
 
 func (g *bodyGen) findStruct(t projgen.TypeRef) *projgen.Struct {
@@ -439,6 +444,13 @@ func (g *bodyGen) valueJSON(t projgen.TypeRef, validate string, depth int) strin
 					continue
 				}
 			}
+			if g.violate && g.violated == "" && depth == 0 && f.Validate != "" && !ft.Slice && !ft.Ptr && (ft.Kind == "prim" || ft.Kind == "alias") {
+				if bad, ok := violatingField(f.Validate, ft.Prim); ok {
+					g.violated = f.JSON
+					parts = append(parts, strconv.Quote(f.JSON)+":"+bad)
+					continue
+				}
+			}
 			parts = append(parts, strconv.Quote(f.JSON)+":"+g.valueJSON(ft, f.Validate, depth+1))
 		}
 		return "{" + strings.Join(parts, ",") + "}"
@@ -461,3 +473,28 @@ func typeString(t projgen.TypeRef) string {
 }
 
 func fmtArg(t projgen.TypeRef, canon string) string { return fmt.Sprintf("%s=%s", typeString(t), canon) }
+
+// violatingField returns a JSON literal that violates a struct-field validator
+// (fields are validated by value: "required" means non-zero).
+func violatingField(validate, prim string) (string, bool) {
+	c, known := parseValidate(validate)
+	if !known || c.omitempty {
+		return "", false
+	}
+	switch {
+	case prim == "string":
+		if c.required || (c.min != nil && *c.min >= 1) {
+			return `""`, true
+		}
+		if c.max != nil {
+			return strconv.Quote(strings.Repeat("w", int(*c.max)+1)), true
+		}
+	case prim == "bool":
+		return "", false
+	default:
+		if w, ok := violating(validate, prim); ok {
+			return w.Raw, true
+		}
+	}
+	return "", false
+}
